@@ -34,6 +34,9 @@ def _run(mod, root: Path, prop: str) -> tuple[set[tuple[str, str, str]], list[st
     idx = Index(root)
     rep = Report(prop, "thorough")
     mod.check(idx, rep, "quick")
+    from . import memo_rule
+
+    rep.run(memo_rule.check, idx, rep, prop)
     return _idents(rep), list(rep.analysis_errors)
 
 
